@@ -15,7 +15,8 @@ fn one(out: &mut dyn std::io::Write, id: &str, syn: &str, words: &[String], rang
     let valid = match std::panic::catch_unwind(|| parses(src, v)) { Ok(b) => b, Err(_) => false };
     let r = range.map(|(a, b)| stylua_lib::Range::from_values(Some(a), Some(b)));
     let t0 = Instant::now();
-    let res = format_guarded(src, cfg, r);
+    // ids that start with `verify-` run with the library's output verification on
+    let res = format_guarded_v(src, cfg, r, id.starts_with("verify-"));
     let mut ms = t0.elapsed().as_millis();
     // a loaded machine makes single measurements meaningless: a case over budget is measured again (twice), the best time counts
     for _ in 0..2 {
@@ -130,6 +131,21 @@ pub fn main(args: &[String]) {
             let src = format!("{}return 1\n{}", "return f(function()\n".repeat(k), "end)\n".repeat(k));
             writeln!(out, "START return-nesting {}", k).unwrap(); out.flush().unwrap();
             one(&mut out, &format!("retnest{}", k), "Lua51", &default, None, &src, &mut st);
+        }
+        // number literals of every shape through the output verification (it re-reads every number of input and output)
+        for (i, (syn, lit)) in [("Lua51", "0"), ("Lua51", "007"), ("Lua51", ".5"), ("Lua51", "5."), ("Lua51", "1e10"), ("Lua51", "3.25E-2"), ("Lua51", "0xFF"), ("Lua51", "0XaB"),
+                                ("Lua51", "0x7FFFFFFFFFFFFFFF"), ("Lua51", "0xFFFFFFFFFFFFFFFF"), ("Lua51", "0xFFFFFFFFFFFFFFFFF"), ("Lua51", "1e400"), ("Lua51", "123456789012345678901234567890"),
+                                ("Lua52", "0x1p4"), ("Lua52", "0x.8"), ("Lua52", "0xA.8p-1"), ("Luau", "1_000"), ("Luau", "0b1010"), ("Luau", "0b1111111111111111111111111111111111111111111111111111111111111111"),
+                                ("Luau", "0xFFFF_FFFF_FFFF_FFFF"), ("LuaJIT", "10LL"), ("LuaJIT", "0xFFFFFFFFFFFFFFFFULL")].iter().enumerate() {
+            let src = format!("local   x = {}\nreturn  -{} + {}\n", lit, lit, lit);
+            writeln!(out, "START verify-number {}", i).unwrap(); out.flush().unwrap();
+            one(&mut out, &format!("verify-number{}", i), syn, &vec![format!("syntax={}", syn)], None, &src, &mut st);
+        }
+        // require groups in unusual layouts with sort_requires on (line distances of zero, semicolons, groups of both kinds on one line)
+        for (i, src) in ["local a = require('a') local b = require('b')\n", "local b = require('b')\nlocal a = require('a')\n", "local a = require('a');local b = require('b');\n",
+                         "local s = game:GetService('S') local r = require('r')\nlocal q = require('q')\n", "local b = require('b') -- c\nlocal a = require('a') local c = require('c')\n"].iter().enumerate() {
+            writeln!(out, "START sort-requires {}", i).unwrap(); out.flush().unwrap();
+            one(&mut out, &format!("sortreq{}", i), "Luau", &vec!["syntax=Luau".to_string(), "sort_requires=true".to_string()], None, src, &mut st);
         }
         for len in [1000usize, 10000] {
             let src = "local x = f(a, b)\n".repeat(len);
